@@ -577,7 +577,13 @@ func fixpointA(s *stateA, withQueues bool) (*fixA, error) {
 	}
 	f.Final = cur
 	if withQueues && f.Converged {
-		for r := 0; r < 3; r++ {
+		// the queues start empty, so their fixpoint is a function of the group's final status only
+		ck := rsCanon(&cur.RS)
+		if c, ok := queueE2ECache[ck]; ok {
+			f.QueueRoot, f.QueueLeaf, f.QueueErr = c.root, c.leaf, c.err
+			return f, nil
+		}
+		for r := 0; r < 2; r++ { // child, parent, then once more each (must be a no-op)
 			f.QueueRounds++
 			for _, q := range []string{"leaf", "root"} {
 				if e := reconcileQueue(counted, q); e != "" {
@@ -593,9 +599,17 @@ func fixpointA(s *stateA, withQueues bool) (*fixA, error) {
 			return nil, err
 		}
 		f.QueueRoot, f.QueueLeaf = root.Status, leaf.Status
+		queueE2ECache[ck] = queueE2E{root.Status, leaf.Status, f.QueueErr}
 	}
 	return f, nil
 }
+
+type queueE2E struct {
+	root, leaf v2.QueueStatus
+	err        string
+}
+
+var queueE2ECache = map[string]queueE2E{}
 
 type finding struct {
 	Key string
